@@ -241,6 +241,15 @@ func CompareVersion(v1, v2 string) int {
 		return 1
 	}
 
+	// the nanosecond part is a decimal number without leading zeros:
+	// compare it as a number (shorter is smaller), not as a string
+	if len(parts1[1]) != len(parts2[1]) {
+		if len(parts1[1]) < len(parts2[1]) {
+			return -1
+		}
+		return 1
+	}
+
 	if parts1[1] < parts2[1] {
 		return -1
 	} else if parts1[1] > parts2[1] {
